@@ -400,7 +400,7 @@ func (w *world) process(name string, pc procCfg, bo buildOpts, stepHook func(ste
 			return
 		}
 		if bo.DryThenNil > 0 {
-			proj.Run(l, &RunOptions{DryRun: true})
+			res.FirstRunErr = proj.Run(l, &RunOptions{DryRun: true})
 			if bo.DryThenNil == 2 {
 				if err := proj.Reload(); err != nil {
 					res.RunErr, res.Ran = err, true
